@@ -5,404 +5,9 @@ use vstd::prelude::*;
 use vstd::arithmetic::div_mod::*;
 use core::mem;
 verus! {
-
-// ---------------------------------------------------------------------------------------------
-// arithmetic lemmas (proved, not assumed)
-// ---------------------------------------------------------------------------------------------
-
-/// wrapped index: position of logical element i in a ring of n slots starting at `start`
-pub open spec fn widx(start: int, i: int, n: int) -> int { (start + i) % n }
-
-pub proof fn lemma_mod_wrap(x: int, n: int)
-    requires 0 <= x < 2 * n, n > 0
-    ensures x % n == (if x < n { x } else { x - n })
-{
-    if x < n { lemma_small_mod(x as nat, n as nat); }
-    else {
-        lemma_mod_sub_multiples_vanish(x, n);
-        lemma_small_mod((x - n) as nat, n as nat);
-    }
-}
-
-pub broadcast proof fn lemma_widx(start: int, i: int, n: int)
-    requires 0 <= start < n, 0 <= i < n
-    ensures #[trigger] widx(start, i, n) == (if start + i < n { start + i } else { start + i - n })
-{
-    lemma_mod_wrap(start + i, n);
-}
-
-/// (first + index) % n  ==  widx(first, index % n, n)
-pub proof fn lemma_widx_any(first: int, index: int, n: int)
-    requires 0 <= first < n, 0 <= index
-    ensures (first + index) % n == widx(first, index % n, n), 0 <= index % n < n
-{
-    lemma_add_mod_noop_right(first, index, n);
-    lemma_mod_bound(index, n);
-}
-
-// T5 (size assumption A-len): a slice of a non-zero-sized element type has at most isize::MAX
-// elements (allocation limit).  Stated as an axiom; used only for `start + len` / `first + 1`.
-pub broadcast axiom fn ax_slice_len<T>(s: &[T])
-    ensures #[trigger] s@.len() <= isize::MAX;
-
-// ---------------------------------------------------------------------------------------------
-// trusted prelude
-// ---------------------------------------------------------------------------------------------
-
-pub assume_specification<T> [core::mem::replace::<T>] (dest: &mut T, src: T) -> (r: T)
-    ensures r == *old(dest), *final(dest) == src;
-
-// R-unchecked: `x.get_unchecked(i)` is rewritten to `get_unchecked_(x, i)`; the bound becomes a
-// proof obligation at every call site ("never reads or writes outside the backing slice").
-#[verifier::external_body]
-fn get_unchecked_<T>(s: &[T], i: usize) -> (r: &T)
-    requires i < s@.len()
-    ensures *r == s@[i as int]
-{ unsafe { s.get_unchecked(i) } }
-
-#[verifier::external_body]
-fn get_unchecked_mut_<T>(s: &mut [T], i: usize) -> (r: &mut T)
-    requires i < old(s)@.len()
-    ensures *r == (*old(s))@[i as int], (*final(s))@ == (*old(s))@.update(i as int, *final(r))
-{ unsafe { s.get_unchecked_mut(i) } }
-
-// R-ptr: ptr::write / ptr::read through a reference to a Copy element (no drop glue): plain
-// store / load.
-#[verifier::external_body]
-fn ptr_write_<T>(dest: &mut T, v: T)
-    ensures *final(dest) == v
-{ unsafe { core::ptr::write(dest, v) } }
-
-#[verifier::external_body]
-fn ptr_read_<T: Copy>(src: &mut T) -> (r: T)
-    ensures r == *old(src), *final(src) == *old(src)
-{ unsafe { core::ptr::read(src) } }
-
-// R-assert: `assert!(c)` -> `assert_or_panic_(c)`: returns only if c holds (panics otherwise).
-#[verifier::external_body]
-fn assert_or_panic_(c: bool)
-    ensures c
-{ assert!(c) }
-
-// Trait contracts (the repository's traits carry no specification; `view` is the abstract content).
-pub trait Slice {
-    type Element;
-    spec fn view(&self) -> Seq<Self::Element>;
-    fn slice(&self) -> (r: &[Self::Element])
-        ensures r@ == self.view();
-}
-
-pub trait SliceMut: Slice {
-    fn slice_mut(&mut self) -> (r: &mut [Self::Element])
-        ensures r@ == old(self).view(), final(self).view() == (*final(r))@;
-}
-
-// ---------------------------------------------------------------------------------------------
-// Fixed
-// ---------------------------------------------------------------------------------------------
-
-//@struct file=dasp_ring_buffer/src/lib.rs name=Fixed
-
-//@impl file=dasp_ring_buffer/src/lib.rs header="impl<S> Fixed<S>"
-    pub open spec fn n(&self) -> int { self.data.view().len() as int }
-    /// representation invariant (N >= 1 follows from first < N)
-    pub open spec fn wf(&self) -> bool {
-        self.first < self.n() <= isize::MAX
-    }
-    /// abstract view: the N elements oldest-first
-    pub open spec fn seq(&self) -> Seq<S::Element> {
-        Seq::new(self.n() as nat, |i: int| self.data.view()[widx(self.first as int, i, self.n())])
-    }
-
-//@fn file=dasp_ring_buffer/src/lib.rs in="impl:<S> Fixed<S>" name=len ret=r label=Fixed::len
-//@spec
-        ensures r == self.n(),
-//@end
-
-//@fn file=dasp_ring_buffer/src/lib.rs in="impl:<S> Fixed<S>" name=push ret=r label=Fixed::push
-//@spec
-        requires old(self).wf(),
-        ensures
-            final(self).wf(),
-            final(self).n() == old(self).n(),
-            r == old(self).seq()[0],
-            final(self).seq() =~= old(self).seq().drop_first().push(item),
-//@entry
-        broadcast use lemma_widx;
-//@end
-
-//@fn file=dasp_ring_buffer/src/lib.rs in="impl:<S> Fixed<S>" name=get ret=r label=Fixed::get
-//@spec
-        requires self.wf(),
-        ensures *r == self.seq()[(index as int) % self.n()],
-//@entry
-        proof { lemma_widx_any(self.first as int, index as int, self.n()); }
-//@end
-
-//@fn file=dasp_ring_buffer/src/lib.rs in="impl:<S> Fixed<S>" name=get_mut ret=r label=Fixed::get_mut
-//@spec
-        requires old(self).wf(),
-        ensures
-            *r == old(self).seq()[(index as int) % old(self).n()],
-            final(self).wf(),
-            final(self).first == old(self).first,
-            final(self).seq() =~= old(self).seq().update((index as int) % old(self).n(), *final(r)),
-//@entry
-        broadcast use lemma_widx;
-        proof { lemma_widx_any(self.first as int, index as int, self.n()); }
-//@end
-
-//@fn file=dasp_ring_buffer/src/lib.rs in="impl:<S> Fixed<S>" name=set_first label=Fixed::set_first
-//@spec
-        requires old(self).wf(),
-        ensures
-            final(self).wf(),
-            final(self).data == old(self).data,
-            final(self).first == (index as int) % old(self).n(),
-//@entry
-        proof { lemma_mod_bound(index as int, self.n()); }
-//@end
-
-//@fn file=dasp_ring_buffer/src/lib.rs in="impl:<S> Fixed<S>" name=slices ret=r label=Fixed::slices
-//@spec
-        requires self.wf(),
-        ensures r.0@ + r.1@ =~= self.seq(),
-            r.0@.len() == self.n() - self.first,
-//@entry
-        broadcast use lemma_widx;
-//@end
-
-//@fn file=dasp_ring_buffer/src/lib.rs in="impl:<S> Fixed<S>" name=slices_mut ret=r label=Fixed::slices_mut
-//@spec
-        requires old(self).wf(),
-        ensures r.0@ + r.1@ =~= old(self).seq(),
-            r.0@.len() == old(self).n() - old(self).first,
-            final(self).first == old(self).first,
-//@entry
-        broadcast use lemma_widx;
-//@end
-
-//@fn file=dasp_ring_buffer/src/lib.rs in="impl:<S> Fixed<S>" name=from_raw_parts ret=r rules=R-assert label=Fixed::from_raw_parts
-//@spec
-        ensures r.wf(), r.first == first, r.data == data,
-//@entry
-        broadcast use ax_slice_len;
-//@end
-
-//@fn file=dasp_ring_buffer/src/lib.rs in="impl:<S> Fixed<S>" name=into_raw_parts ret=r label=Fixed::into_raw_parts
-//@spec
-        ensures r.0 == self.first, r.1 == self.data,
-//@end
-
-//@endimpl
-
-// `impl From<S> for Fixed<S>` / `Index` / `IndexMut`: std traits cannot carry a contract in
-// Verus, so their method bodies are extracted as inherent methods (R-inherent).
-//@impl file=dasp_ring_buffer/src/lib.rs header="impl<S> From<S> for Fixed<S>" as="impl<S> Fixed<S>"
-//@fn file=dasp_ring_buffer/src/lib.rs in="impl:<S> From<S> for Fixed<S>" name=from ret=r label=Fixed::from
-//@spec
-        ensures r.wf(), r.first == 0, r.data == data, r.seq() =~= data.view(),
-//@entry
-        broadcast use lemma_widx;
-//@end
-//@endimpl
-
-//@impl file=dasp_ring_buffer/src/lib.rs header="impl<S> Index<usize> for Fixed<S>" as="impl<S> Fixed<S>"
-//@fn file=dasp_ring_buffer/src/lib.rs in="impl:<S> Index<usize> for Fixed<S>" name=index ret=r label=Fixed::index rules=R-subst:Self::Output=>S::Element
-//@spec
-        requires self.wf(),
-        ensures *r == self.seq()[(index as int) % self.n()],
-//@end
-//@endimpl
-
-//@impl file=dasp_ring_buffer/src/lib.rs header="impl<S> IndexMut<usize> for Fixed<S>" as="impl<S> Fixed<S>"
-//@fn file=dasp_ring_buffer/src/lib.rs in="impl:<S> IndexMut<usize> for Fixed<S>" name=index_mut ret=r label=Fixed::index_mut rules=R-subst:Self::Output=>S::Element
-//@spec
-        requires old(self).wf(),
-        ensures
-            *r == old(self).seq()[(index as int) % old(self).n()],
-            final(self).wf(),
-            final(self).seq() =~= old(self).seq().update((index as int) % old(self).n(), *final(r)),
-//@end
-//@endimpl
-
-// ---------------------------------------------------------------------------------------------
-// Bounded
-// ---------------------------------------------------------------------------------------------
-
-//@struct file=dasp_ring_buffer/src/lib.rs name=Bounded
-//@struct file=dasp_ring_buffer/src/lib.rs name=DrainBounded
-
-//@impl file=dasp_ring_buffer/src/lib.rs header="impl<S> Bounded<S>"
-    pub open spec fn cap(&self) -> int { self.data.view().len() as int }
-    pub open spec fn wf(&self) -> bool {
-        self.start < self.cap() && self.len <= self.cap() && self.cap() <= isize::MAX
-    }
-    /// abstract view: the live elements oldest-first
-    pub open spec fn seq(&self) -> Seq<S::Element> {
-        Seq::new(self.len as nat, |i: int| self.data.view()[widx(self.start as int, i, self.cap())])
-    }
-
-//@fn file=dasp_ring_buffer/src/lib.rs in="impl:<S> Bounded<S>" name=from_full ret=r label=Bounded::from_full
-//@spec
-        ensures r.wf(), r.seq() =~= data.view(), r.data == data,
-//@entry
-        broadcast use lemma_widx;
-//@end
-
-//@fn file=dasp_ring_buffer/src/lib.rs in="impl:<S> Bounded<S>" name=max_len ret=r label=Bounded::max_len
-//@spec
-        ensures r == self.cap(),
-//@end
-
-//@fn file=dasp_ring_buffer/src/lib.rs in="impl:<S> Bounded<S>" name=len ret=r label=Bounded::len
-//@spec
-        ensures r == self.seq().len(),
-//@end
-
-//@fn file=dasp_ring_buffer/src/lib.rs in="impl:<S> Bounded<S>" name=is_empty ret=r label=Bounded::is_empty
-//@spec
-        ensures r == (self.seq().len() == 0),
-//@end
-
-//@fn file=dasp_ring_buffer/src/lib.rs in="impl:<S> Bounded<S>" name=is_full ret=r label=Bounded::is_full
-//@spec
-        ensures r == (self.seq().len() == self.cap()),
-//@end
-
-//@fn file=dasp_ring_buffer/src/lib.rs in="impl:<S> Bounded<S>" name=slices ret=r label=Bounded::slices
-//@spec
-        requires self.wf(),
-        ensures r.0@ + r.1@ =~= self.seq(),
-//@entry
-        broadcast use lemma_widx;
-//@end
-
-//@fn file=dasp_ring_buffer/src/lib.rs in="impl:<S> Bounded<S>" name=slices_mut ret=r label=Bounded::slices_mut
-//@spec
-        requires old(self).wf(),
-        ensures r.0@ + r.1@ =~= old(self).seq(),
-            final(self).start == old(self).start, final(self).len == old(self).len,
-//@entry
-        broadcast use lemma_widx;
-//@end
-
-//@fn file=dasp_ring_buffer/src/lib.rs in="impl:<S> Bounded<S>" name=get ret=r label=Bounded::get
-//@spec
-        requires self.wf(),
-        ensures
-            r.is_some() == (index < self.seq().len()),
-            r.is_some() ==> *r.unwrap() == self.seq()[index as int],
-//@entry
-        broadcast use lemma_widx;
-        proof { if index < self.len { lemma_widx(self.start as int, index as int, self.cap()); } }
-//@end
-
-//@fn file=dasp_ring_buffer/src/lib.rs in="impl:<S> Bounded<S>" name=get_mut ret=r label=Bounded::get_mut
-//@spec
-        requires old(self).wf(),
-        ensures
-            r.is_some() == (index < old(self).seq().len()),
-            final(self).wf(),
-            r.is_some() ==> *r.unwrap() == old(self).seq()[index as int]
-                && final(self).seq() =~= old(self).seq().update(index as int, *final(r.unwrap())),
-            r.is_none() ==> final(self).seq() =~= old(self).seq(),
-//@entry
-        broadcast use lemma_widx;
-        proof { if index < self.len { lemma_widx(self.start as int, index as int, self.cap()); } }
-//@end
-
-//@fn file=dasp_ring_buffer/src/lib.rs in="impl:<S> Bounded<S>" name=push ret=r label=Bounded::push
-//@spec
-        requires old(self).wf(),
-        ensures
-            final(self).wf(),
-            final(self).cap() == old(self).cap(),
-            old(self).seq().len() < old(self).cap() ==>
-                r is None && final(self).seq() =~= old(self).seq().push(elem),
-            old(self).seq().len() == old(self).cap() ==>
-                r == Some(old(self).seq()[0]) && final(self).seq() =~= old(self).seq().drop_first().push(elem),
-//@entry
-        broadcast use lemma_widx;
-        proof { if self.len < self.cap() { lemma_widx(self.start as int, self.len as int, self.cap()); } }
-//@end
-
-//@fn file=dasp_ring_buffer/src/lib.rs in="impl:<S> Bounded<S>" name=pop ret=r label=Bounded::pop
-//@spec
-        requires old(self).wf(),
-        ensures
-            final(self).wf(),
-            final(self).cap() == old(self).cap(),
-            old(self).seq().len() == 0 ==> r is None && final(self).seq() =~= old(self).seq(),
-            old(self).seq().len() > 0 ==>
-                r == Some(old(self).seq()[0]) && final(self).seq() =~= old(self).seq().drop_first(),
-//@entry
-        broadcast use lemma_widx;
-//@end
-
-//@fn file=dasp_ring_buffer/src/lib.rs in="impl:<S> Bounded<S>" name=drain ret=r label=Bounded::drain
-//@spec
-        ensures *r.bounded == *old(self), *final(r.bounded) == *final(self),
-//@end
-
-//@fn file=dasp_ring_buffer/src/lib.rs in="impl:<S> Bounded<S>" name=from_raw_parts ret=r rules=R-assert label=Bounded::from_raw_parts
-//@spec
-        ensures r.wf(), r.start == start, r.len == len, r.data == data,
-//@entry
-        broadcast use ax_slice_len;
-//@end
-
-//@endimpl
-
-//@impl file=dasp_ring_buffer/src/lib.rs header="impl<S> From<S> for Bounded<S>" as="impl<S> Bounded<S>"
-//@fn file=dasp_ring_buffer/src/lib.rs in="impl:<S> From<S> for Bounded<S>" name=from ret=r label=Bounded::from
-//@spec
-        ensures r.wf(), r.seq() =~= Seq::<S::Element>::empty(), r.data == data,
-//@end
-//@endimpl
-
-//@impl file=dasp_ring_buffer/src/lib.rs header="impl<S> Index<usize> for Bounded<S>" as="impl<S> Bounded<S>"
-//@fn file=dasp_ring_buffer/src/lib.rs in="impl:<S> Index<usize> for Bounded<S>" name=index ret=r label=Bounded::index rules=R-subst:Self::Output=>S::Element
-//@spec
-        requires self.wf(), index < self.seq().len(),   // out of range: documented panic ("index out of range")
-        ensures *r == self.seq()[index as int],
-//@end
-//@endimpl
-
-//@impl file=dasp_ring_buffer/src/lib.rs header="impl<S> IndexMut<usize> for Bounded<S>" as="impl<S> Bounded<S>"
-//@fn file=dasp_ring_buffer/src/lib.rs in="impl:<S> IndexMut<usize> for Bounded<S>" name=index_mut ret=r label=Bounded::index_mut rules=R-subst:Self::Output=>S::Element
-//@spec
-        requires old(self).wf(), index < old(self).seq().len(),
-        ensures *r == old(self).seq()[index as int],
-            final(self).wf(),
-            final(self).seq() =~= old(self).seq().update(index as int, *final(r)),
-//@end
-//@endimpl
-
-//@impl file=dasp_ring_buffer/src/lib.rs header="impl<'a, S> Iterator for DrainBounded<'a, S>" as="impl<'a, S> DrainBounded<'a, S>"
-//@fn file=dasp_ring_buffer/src/lib.rs in="impl:<'a, S> Iterator for DrainBounded<'a, S>" name=next ret=r label=DrainBounded::next rules=R-subst:Self::Item=>S::Element
-//@spec
-        requires old(self).bounded.wf(),
-        ensures
-            final(self).bounded.wf(),
-            final(self).bounded.cap() == old(self).bounded.cap(),
-            old(self).bounded.seq().len() == 0 ==> r is None && final(self).bounded.seq() =~= old(self).bounded.seq(),
-            old(self).bounded.seq().len() > 0 ==>
-                r == Some(old(self).bounded.seq()[0]) && final(self).bounded.seq() =~= old(self).bounded.seq().drop_first(),
-//@end
-//@fn file=dasp_ring_buffer/src/lib.rs in="impl:<'a, S> Iterator for DrainBounded<'a, S>" name=size_hint ret=r label=DrainBounded::size_hint
-//@spec
-        ensures r.0 == old(self.bounded).seq().len(), r.1 == Some(old(self.bounded).seq().len() as usize),
-//@end
-//@endimpl
-
-//@impl file=dasp_ring_buffer/src/lib.rs header="impl<'a, S> ExactSizeIterator for DrainBounded<'a, S>" as="impl<'a, S> DrainBounded<'a, S>"
-//@fn file=dasp_ring_buffer/src/lib.rs in="impl:<'a, S> ExactSizeIterator for DrainBounded<'a, S>" name=len ret=r label=DrainBounded::len
-//@spec
-        ensures r == old(self.bounded).seq().len(),
-//@end
-//@endimpl
-
+//@include _shared/rb_prelude.rs
+//@include _shared/rb_fixed.rs
+//@include _shared/rb_bounded.rs
 // ---------------------------------------------------------------------------------------------
 // The Slice / SliceMut impls of the repository, verified against the trait contract
 // ---------------------------------------------------------------------------------------------
